@@ -45,6 +45,10 @@ pub struct MirrorStorage {
     /// call trace since creation; only maintained while RECORD is on and
     /// never part of the model state
     pub calls: Vec<Call>,
+    /// fault injection (deviation `FailAppend`): the next `Storage::append` returns an error and has no
+    /// effect, like a failed transaction of the real ClusterLog (cluster_log.rs:61-84 runs in one
+    /// `transaction_mut`); part of the model state
+    pub fail_next_append: bool,
 }
 
 pub const TRACE_MAX: usize = 6;
@@ -136,6 +140,10 @@ impl MirrorStorage {
 
 impl Storage<u8, ()> for MirrorStorage {
     async fn append(&mut self, log: Log<u8>, _notifier: Option<()>) -> ServerResult<()> {
+        if self.fail_next_append {
+            self.fail_next_append = false;
+            return Err(crate::server_error::ServerError { description: "injected storage append failure".into() });
+        }
         self.do_append(log.index, log.term, log.data);
         Ok(())
     }
